@@ -148,6 +148,9 @@ def main(tier):
     for t in ["{ ReV = clo32(RsV) + clo32(RtV); }", "{ int32_t a = RsV; ReV = a++ + 1; a--; RddV = a; }", "{ P0 = RsV; P1 = RtV; if (PuN) { JUMP(RsV); } }",
               "{ ReV = (RsV > 0) ? ({ set_usr_field(bundle, HEX_REG_FIELD_USR_OVF, 1); 1; }) : 2; }", "{ RdV = siV + uiV; }", "{ EA = RsV + siV; RdV = mem_load_s16(EA); mem_store_u8(EA, RtV); }"]:
         items.append({"id": f"fix{len(items)}", "entry": "stmt", "text": t})
+    for t in ["{ RdV = get_npc(pkt); }", "{ HEX_REG_ALIAS_LR = get_npc(pkt); JUMP(riV); }", "{ RdV = get_corresponding_CS(pkt, MuV); }", "{ set_usr_field(bundle, HEX_REG_FIELD_USR_OVF, 1); RdV = get_usr_field(bundle, HEX_REG_FIELD_USR_OVF); }",
+              "{ if (PuV & 1) { STORE_SLOT_CANCELLED(pkt, slot); } }", "{ RdV = fcirc_add(bundle, RxV, siV, MuV, get_corresponding_CS(pkt, MuV)); }"]:
+        items.append({"id": f"par{len(items)}", "entry": "stmt", "text": t})
     names = [nm for nm in corpus.stratified_sample(beh, 400, run.seed) if sum(len(b) for b in beh[nm]) < 240]
     rng.shuffle(names)
     for nm in names[: (30 if tier == "quick" else 250)]:
@@ -218,6 +221,9 @@ def main(tier):
             pool = list(reversed(pool))
         hist = []
         two = h % 3 == 0
+        # items that use the long-lived parameter operands (pkt, hi, bundle) occur twice in every long history
+        pool = pool + [it for it in usable if it["id"].startswith("par")] * 2
+        r2.shuffle(pool)
         for it in pool:
             comp = r2.choice(["A", "B"]) if two else "A"
             x = r2.random()
